@@ -15,9 +15,6 @@ E = [
  ("foreign-name-confusion", "<svg><desc><path></desc><path>", None, "the standard's 'an X element' tests mean HTML-namespace elements; html5lib compares node.name only, so SVG/MathML elements named td, tbody, desc, html ... are closed / foster-parented / matched as if they were HTML (namespace-confusion family, see C10)", None, False),
  ("adoption-agency-not-in-scope-acts-as-other-end-tag", "<b><math><mi></b>x", None, "adoption agency step 8: formatting element in the stack but not in scope -> parse error, return; html5lib calls endTagOther (acts as 'any other end tag', which may pop elements)", "InBodyPhase.endTagFormatting: drop the 'formattingElement in openElements and not elementInScope' alternative from the first test (the 'adoption-agency-4.4' branch below already handles it)", False),
  ("adoption-agency-inner-loop>3", "<a><em><small><u><strong><h1><a></em>", None, "adoption agency 14.5: if inner loop counter > 3 and node is in the list of active formatting elements remove it (then 14.6 removes it from the stack) and the loop continues to the formatting element; html5lib: `while innerLoopCounter < 3` stops after three nodes (2011 algorithm)", None, False),
- ("adoption-agency-bookmark-index", "<b><center><li><div><u><div><div><div><p><i><address><blockquote></b>y", None, "adoption agency step 19: insert the new element at the bookmark; html5lib computes bookmark = index(node)+1 before activeFormattingElements.remove(formattingElement) and uses it after: the clone lands one position too late ([u,i,b] instead of [u,b,i]) and <i> is not reconstructed", "endTagFormatting: before activeFormattingElements.remove(formattingElement): if bookmark > activeFormattingElements.index(formattingElement): bookmark -= 1   (patches/html5lib_whatwg_three_bugs.patch; 972 tests pass)", True),
- ("in-table-button-token-dropped", "<table><button><button>", None, "'in body' <button> with a button in scope: generate implied end tags, pop it, THEN insert the new button; html5lib returns the token for reprocessing and InTablePhase.startTagOther drops the return value: the second button is lost", "startTagButton: after processEndTag(impliedTagToken(\"button\")) fall through to reconstruct / insertElement / framesetOK = False instead of `return token` (patches/html5lib_whatwg_three_bugs.patch; 972 tests pass)", True),
- ("in-table-foster-parenting-switched-off-by-nested-end-tag", "<table><p><li>", None, "in table, 'anything else' processes the whole token with foster parenting enabled; html5lib's li/dd/dt/option handlers close the previous element through self.parser.phase.processEndTag, which in a table phase is InTablePhase.endTagOther and ends with insertFromTable = False: the new element is put INSIDE the table", "InTablePhase.startTagOther / endTagOther / insertText: save insertFromTable before setting it True and restore the saved value instead of False (patches/html5lib_whatwg_three_bugs.patch; 972 tests pass)", True),
  ("in-table-text-although-current-node-not-table", "<a><b></a> ", "table", "'in table': a character token goes to 'in table text' only if the current node is table/tbody/tfoot/thead/tr, otherwise 'anything else' (in body: reconstruct the active formatting elements); html5lib sends every character token to 'in table text' and inserts whitespace without reconstructing", None, False),
  ("in-table-text-doctype-does-not-flush", "<table> <!doctype>x", None, "'in table text', anything else (incl. DOCTYPE): flush the pending table character tokens; html5lib's InTableTextPhase has no processDoctype, the characters before and after the DOCTYPE form one run", "add processDoctype to InTableTextPhase (flushCharacters, restore phase, return token)", False),
  ("fragment-table-start-tag-in-table", "<table><table>", "div", "'in table' <table>: if a table is in table scope pop it, reset the insertion mode, reprocess; otherwise ignore; html5lib sends an implied </table> through the CURRENT phase and never reprocesses the token when innerHTML is set", None, False),
